@@ -4,7 +4,7 @@ import LLRP.Model.WriteMonitor
 oracle verbs of C05 / C07 (write side):
 `check-write x<raw stream> <kaIds|-> <mustAck|-> <issued…>` — the Lean monitor `checkWrite` on the raw bytes a peer
 recorded; id lists are comma separated; an issued request is `<typ>:<len>:<seed>:<must 0|1>` with payload
-`genPayload seed len`. Reply `accept` or `reject <clause>`.
+`genPayload seed len`; a token starting with `#` names the run and is ignored. Reply `accept` or `reject <clause>`.
 `wr-seq <version> <item…>` — the write-side fold on a dequeue order: items `a<id>` (ack), `r<typ>:<len>:<seed>:<wants>`
 (request), `v<n>` (version change); reply: one `ver:typ:id:len:fnv32(payload)` per frame, then `rest=<n>` stray bytes.
 -/
@@ -59,6 +59,7 @@ def fmtSummary (f : Frame) : String := s!"{f.ver}:{f.typ}:{f.id}:{f.payload.leng
 def handleC05 : Handler := fun args =>
   match args with
   | "check-write" :: hex :: ka :: must :: issued =>
+    let issued := issued.filter (fun t => !t.startsWith "#")   -- `#<tag>`: the harness's name for the run
     match unhexBig hex, parseIds ka, parseIds must, issued.mapM parseIssued with
     | some stream, some kaIds, some mustAck, some iss =>
       match checkWrite stream iss kaIds mustAck with
